@@ -245,6 +245,10 @@ def c02_scope(tier):
     P.append(("all-sig-cond-signal", B1 + S + V + "Signal r = (all(b) > s) : v;\nSignal q = (any(b) < s) : (v + 1);\n"))
     P.append(("all-const-cond-signal", B1 + V + "Signal r = (all(b) > 4) : v;\n"))
     P.append(("all-sig-cond-self", B1 + S + "Signal r = (all(b) > s) : s;\n"))
+    P.append(("all-sig-gates-own", B1 + S + "Bundle g = (all(b) > s) : b;\nBundle h = (any(b) < s) : b;\n"))
+    P.append(("all-sig-gates-other", B1 + S + 'Bundle c = { ("signal-D", 4), ("signal-E", 6) };\nBundle g = (all(b) > s) : c;\n'))
+    P.append(("all-const-gates-own", B1 + "Bundle g = (all(b) > 4) : b;\n"))
+    P.append(("any-const-gates-own", B1 + "Bundle g = (any(b) > 10) : b;\n"))
     P.append(("zero-members", 'Bundle b = { ("signal-A", 0), ("signal-B", 5) };\nBundle r = b + 10;\nSignal q = all(b) > 3;\nSignal p = any(b) < 1;\n'))
     return P
 
